@@ -12,7 +12,7 @@ import ast
 from .. import anchors as A
 from ..consteval import try_fold
 from ..flow import ANY_EXC, CANCEL
-from ..model import AnalysisError, Project, call_name, kwarg, local_values, walk_local
+from ..model import AnalysisError, FuncInfo, Project, call_name, kwarg, local_values, walk_local
 from ..paths import PState, PathAnalysis, has_await, run_paths, subst_text, calls_in_order, is_benign_call
 from ..report import Report
 from . import _stdio
@@ -251,6 +251,41 @@ def check(P: Project, R: Report) -> None:
     R.fn(ae.fq)
     spawn = [c for c in walk_local(ae.node) if isinstance(c, ast.Call) and call_name(c).endswith("open_process")]
     R.need(len(spawn) == 1, "anchor: open_process call not found in __aenter__")
+    # … and the spawn itself fails for a program that cannot be started only if the program is exec'ed directly: an
+    # argv list. A string is run through the shell, which always starts (and exits 127 later, inside the context).
+    a0 = spawn[0].args[0] if spawn[0].args else kwarg(spawn[0], "command")
+    forms = [a0]
+    if isinstance(a0, ast.Name):
+        forms = [v for v in local_values(ae.node).get(a0.id, []) if v is not None] or [a0]
+    # a package helper that builds the command: read what it can return
+    expanded = []
+    for x in forms:
+        g_ = P.resolve_call(ae, x) if isinstance(x, ast.Call) else None
+        if isinstance(g_, FuncInfo):
+            rets_ = [r_.value for r_ in walk_local(g_.node) if isinstance(r_, ast.Return) and r_.value is not None]
+            lvg_ = local_values(g_.node)
+            for r_ in rets_:
+                if isinstance(r_, ast.Name) and r_.id not in g_.params():
+                    expanded += [v for v in lvg_.get(r_.id, []) if v is not None] or [r_]
+                else:
+                    expanded.append(r_)
+        else:
+            expanded.append(x)
+    def _alts(x):
+        if isinstance(x, ast.IfExp):
+            return _alts(x.body) + _alts(x.orelse)
+        if isinstance(x, ast.BoolOp):
+            return [y for v in x.values for y in _alts(v)]
+        return [x]
+
+    forms = [y for x in expanded for y in _alts(x)]
+    unknown = [x for x in forms if not isinstance(x, (ast.List, ast.Tuple, ast.Constant, ast.JoinedStr, ast.BinOp, ast.Attribute, ast.Name)) and not (isinstance(x, ast.Call) and (call_name(x) in ("list", "tuple", "str", "shlex.join") or (isinstance(x.func, ast.Attribute) and x.func.attr in ("join", "strip", "lstrip", "rstrip", "format", "replace", "lower"))))]
+    if unknown:
+        raise AnalysisError(f"{rel}:{spawn[0].lineno}: what open_process is given (`{ast.unparse(unknown[0])[:60]}`) is built in a shape this rule cannot read")
+    stringly = [x for x in forms if not isinstance(x, (ast.List, ast.Tuple)) and not (isinstance(x, ast.Call) and call_name(x) in ("list", "tuple"))]
+    R.ob("R4", "open_process is given an argv list on every path (never a command string)", not stringly and kwarg(spawn[0], "shell") is None, f"{rel}:{spawn[0].lineno}",
+         f"the command can reach open_process as `{ast.unparse(stringly[0])[:60] if stringly else 'shell=…'}`: a string is started through the shell, so a program that does not exist no longer makes entering the context raise — the shell starts, exits 127, and the context is entered with a dead child",
+         sample=f"R4 open_process({ast.unparse(forms[0])[:50]})")
     trys = [t for t in walk_local(ae.node) if isinstance(t, ast.Try) and any(spawn[0] in list(walk_local(s)) for s in t.body)]
     if not trys:
         R.ob("R4", "spawn failure propagates (no handler at all)", True, ae.where, "")
